@@ -248,6 +248,13 @@ func (ef *Filter) Process(ctx context.Context, e *eventlogger.Event) (*eventlogg
 			if err := ef.filterField(ctx, payloadValue, filterOverrides, tm, opts...); err != nil {
 				return nil, fmt.Errorf("%s: %w", op, err)
 			}
+		} else {
+			// a taggable map is only tracked as a side effect of one of its
+			// pointer tags being found: make sure it is tracked, so its
+			// untagged keys are filtered even when none was.
+			if err := tm.trackMap(&tMap{value: payloadValue}); err != nil {
+				return nil, fmt.Errorf("%s: %w", op, err)
+			}
 		}
 	case pKind == reflect.Slice:
 		switch {
@@ -470,6 +477,12 @@ func (ef *Filter) filterField(ctx context.Context, v reflect.Value, filterOverri
 				// on the next recursion or will be in an infinite loop
 				opt = append(opt, withIgnoreTaggable())
 				if err := ef.filterField(ctx, field, filterOverrides, tm, opt...); err != nil {
+					return fmt.Errorf("%s: %w", op, err)
+				}
+			} else {
+				// make sure the taggable map is tracked even when none of its
+				// pointer tags was found, so its untagged keys are filtered.
+				if err := tm.trackMap(&tMap{value: field}); err != nil {
 					return fmt.Errorf("%s: %w", op, err)
 				}
 			}
